@@ -3,7 +3,60 @@
 #[path = "../../shared/c18_circuits.rs"]
 mod shared;
 
+/// Version binding in a build WITHOUT the `legacy-proving` feature (C04): a
+/// V3 proof under every verifier version, on the compiled verifier and on one
+/// rebuilt from bytes; proving under V1/V2 must be refused.
+fn versions() {
+    use dusk_plonk::prelude::*;
+    use rand_core::SeedableRng;
+    let seed: u64 = std::env::var("VERIF_SEED").ok().and_then(|s| s.parse().ok()).unwrap_or(1);
+    let pp = shared::setup(2048);
+    for (size, a) in [(64usize, 3u64 + seed % 5), (300, 5 + seed % 7)] {
+        let circuit = shared::Mixed { size, a };
+        let label = format!("c04-{size}");
+        let (prover, verifier) = match Compiler::compile_with_circuit(&pp, label.as_bytes(), &circuit) {
+            Ok(k) => k,
+            Err(e) => {
+                println!("{size}.error compile {e:?}");
+                continue;
+            }
+        };
+        let mut rng = rand_chacha::ChaCha20Rng::seed_from_u64(0xC04 + seed);
+        let (proof, pi) = match prover.prove(&mut rng, &circuit) {
+            Ok(x) => x,
+            Err(e) => {
+                println!("{size}.error prove {e:?}");
+                continue;
+            }
+        };
+        let rebuilt = Verifier::try_from_bytes(verifier.to_bytes());
+        for (name, v) in [("V1", PlonkVersion::V1), ("V2", PlonkVersion::V2), ("V3", PlonkVersion::V3)] {
+            println!("{size}.v3proof.{name} {}", if verifier.verify_with_version(&proof, &pi, v).is_ok() { "accept" } else { "reject" });
+            if let Ok(rb) = &rebuilt {
+                println!("{size}.v3proof.frombytes.{name} {}", if rb.verify_with_version(&proof, &pi, v).is_ok() { "accept" } else { "reject" });
+            }
+            if v != PlonkVersion::V3 {
+                let mut rng = rand_chacha::ChaCha20Rng::seed_from_u64(0xC04 + seed);
+                match prover.prove_with_version(&mut rng, &circuit, v) {
+                    Ok((p2, pi2)) => {
+                        // a legacy proof was produced although the feature is off:
+                        // report which verifier versions take it
+                        for (n2, v2) in [("V1", PlonkVersion::V1), ("V2", PlonkVersion::V2), ("V3", PlonkVersion::V3)] {
+                            println!("{size}.{name}proof.{n2} {}", if verifier.verify_with_version(&p2, &pi2, v2).is_ok() { "accept" } else { "reject" });
+                        }
+                    }
+                    Err(_) => println!("{size}.prove.{name} refused"),
+                }
+            }
+        }
+    }
+}
+
 fn main() {
+    if std::env::args().any(|a| a == "versions") {
+        versions();
+        return;
+    }
     let thorough = std::env::args().any(|a| a == "thorough");
     let set = shared::circuit_set(thorough);
     let cap = set.iter().map(|(s, _)| (*s + 6).next_power_of_two()).max().unwrap();
